@@ -67,6 +67,51 @@ def mapAll (t : Pt α → Except E (Pt α)) : List (Pt α) → Except E (List (P
       | .error e => .error e
       | .ok qs => .ok (q :: qs)
 
+/-- `mapAll` ring by ring, polygon by polygon -/
+def mapRings (t : Pt α → Except E (Pt α)) : List (List (Pt α)) → Except E (List (List (Pt α)))
+  | [] => .ok []
+  | r :: rs =>
+    match mapAll t r with
+    | .error e => .error e
+    | .ok q =>
+      match mapRings t rs with
+      | .error e => .error e
+      | .ok qs => .ok (q :: qs)
+
+def mapPolys (t : Pt α → Except E (Pt α)) : List (List (List (Pt α))) → Except E (List (List (List (Pt α))))
+  | [] => .ok []
+  | p :: ps =>
+    match mapRings t p with
+    | .error e => .error e
+    | .ok q =>
+      match mapPolys t ps with
+      | .error e => .error e
+      | .ok qs => .ok (q :: qs)
+
+mutual
+/-- the same constructor and nesting with `t` applied to every vertex in order (first failure wins);
+a `*Bounds` becomes its ring as a polygon -/
+def mapVertices (t : Pt α → Except E (Pt α)) : Geom α → Except E (Geom α)
+  | .point p => match t p with | .ok q => .ok (.point q) | .error e => .error e
+  | .multiPoint ps => match mapAll t ps with | .ok q => .ok (.multiPoint q) | .error e => .error e
+  | .lineString ps => match mapAll t ps with | .ok q => .ok (.lineString q) | .error e => .error e
+  | .multiLineString ls => match mapRings t ls with | .ok q => .ok (.multiLineString q) | .error e => .error e
+  | .polygon rs => match mapRings t rs with | .ok q => .ok (.polygon q) | .error e => .error e
+  | .multiPolygon ps => match mapPolys t ps with | .ok q => .ok (.multiPolygon q) | .error e => .error e
+  | .collection gs => match mapVerticesL t gs with | .ok q => .ok (.collection q) | .error e => .error e
+  | .bounds mn mx => match mapRings t [boundsRing mn mx] with | .ok q => .ok (.polygon q) | .error e => .error e
+  | .nil => .ok .nil
+def mapVerticesL (t : Pt α → Except E (Pt α)) : List (Geom α) → Except E (List (Geom α))
+  | [] => .ok []
+  | g :: gs =>
+    match mapVertices t g with
+    | .error e => .error e
+    | .ok h =>
+      match mapVerticesL t gs with
+      | .error e => .error e
+      | .ok hs => .ok (h :: hs)
+end
+
 /-- The statement about `g.Transform(t)` with outcome `r`. -/
 def TransformSpec (t : Option (Pt α → Except E (Pt α))) (g : Geom α) (r : Outcome E (Geom α)) : Prop :=
   match t with
